@@ -137,6 +137,58 @@ Section Identity.
       + cbn [nth_error] in *. exact (A2 i t' m Hn Hm Hne).
   Qed.
 
+  (* ---------- a failing save on the create path ---------- *)
+  Lemma goc_no_growth st text st' r : get_or_create quote unquote st text true = (st', r) ->
+    (st' = st) \/ (length (t_map st') = S (length (t_map st)) /\ exists m, r = GSrc (t_next st) m /\
+                   tbl_find (t_map st) (line quote m) = None /\ to_map unquote text = Ok m).
+  Proof.
+    unfold get_or_create. destruct (tbl_find (t_map st) text); [intros H; injection H as <- _; left; reflexivity|].
+    destruct (to_map unquote text) as [m| | |]; try (intros H; injection H as <- _; left; reflexivity).
+    destruct (is_nil m); [intros H; injection H as <- _; left; reflexivity|].
+    destruct (tbl_find (t_map st) (line quote m)) eqn:F; [intros H; injection H as <- _; left; reflexivity|].
+    intros H. injection H as <- <-. right. cbn [t_map]. rewrite app_length. cbn [length]. split; [lia|].
+    exists m. repeat split. exact F.
+  Qed.
+
+  (* when the save fails on the create path nothing is left behind: the state is the one before the call and the
+     call fails; when no entry had to be made the fault is not even noticed *)
+  Theorem fault_rollback st text :
+    let '(st', r) := goc_fault quote unquote st text true in
+    st' = st /\ (r = GErr \/ get_or_create quote unquote st text true = (st, r)).
+  Proof.
+    unfold goc_fault. destruct (get_or_create quote unquote st text true) as [st1 r1] eqn:E.
+    destruct (goc_no_growth st text st1 r1 E) as [->|(L & _)].
+    - rewrite Nat.eqb_refl. cbn [negb andb]. split; [reflexivity|right; reflexivity].
+    - rewrite L. replace (Nat.eqb (S (length (t_map st))) (length (t_map st))) with false
+        by (symmetry; apply Nat.eqb_neq; lia).
+      cbn [negb andb]. split; [reflexivity|left; reflexivity].
+  Qed.
+
+  (* without a fault goc_fault is the plain call *)
+  Lemma goc_fault_false st text : goc_fault quote unquote st text false = get_or_create quote unquote st text true.
+  Proof. unfold goc_fault. destruct (get_or_create quote unquote st text true). reflexivity. Qed.
+
+  (* a faulty step preserves the invariant, and the later, successful create of the same set is answered and stored *)
+  Lemma goc_fault_step st text f : Inv st -> (forall m, to_map unquote text = Ok m -> rt_ok m) ->
+    let '(st', r) := goc_fault quote unquote st text f in Inv st' /\ ext st st'.
+  Proof.
+    intros I RT. destruct f.
+    - pose proof (fault_rollback st text) as R. destruct (goc_fault quote unquote st text true) as [st' r].
+      destruct R as (-> & _). split; [exact I|apply ext_refl].
+    - rewrite goc_fault_false. pose proof (goc_step st text I RT) as S.
+      destruct (get_or_create quote unquote st text true) as [st' r]. destruct S as (I' & X & _). split; assumption.
+  Qed.
+
+  Lemma run_f_inv : forall ops st, Inv st -> (forall t f m, In (t, f) ops -> to_map unquote t = Ok m -> rt_ok m) ->
+    Inv (fst (run_f quote unquote st ops)).
+  Proof.
+    induction ops as [|[t f] tl IH]; intros st I RT; [exact I|]. cbn [run_f].
+    pose proof (goc_fault_step st t f I (fun m H => RT t f m (or_introl eq_refl) H)) as S.
+    destruct (goc_fault quote unquote st t f) as [st1 r]. destruct S as (I1 & _).
+    specialize (IH st1 I1 (fun t' f' m H => RT t' f' m (or_intror H))).
+    destruct (run_f quote unquote st1 tl) as [st2 rs]. exact IH.
+  Qed.
+
   (* ---------- C06 identity (partial): over any history in which every denoted set obeys the C08 law ---------- *)
   Theorem identity texts : (forall t m, In t texts -> to_map unquote t = Ok m -> rt_ok m) ->
     forall i j ti tj mi mj, nth_error texts i = Some ti -> nth_error texts j = Some tj ->
